@@ -12,7 +12,7 @@ RULE = ("records n in 2..3000 of kinds dyadic/int/plateau/spike/step (dyadic dt:
         "{1,1/2,1/4,1/8,0.2,0.1,0.05,0.02,0.01,0.005}, durations 2..40 s, amplitudes around the 0.025 g gate. "
         "distinct = hash of (record, dt); non-trivial = length >= 3 and not constant")
 TIE = "translator (literals 9.81 / 0.025 / 2*9.81 of im.py regenerated into Gen/Consts, bridge Props/C09Gen) + correspondence (hand model Model/Im.lean on exact rationals; Arias constant pi/(2*9.81) applied on the Python side)"
-NOT_PROVED = ["length of the floating np.arange of CAVdp window abscissae (pps or pps+1 samples): the model integrates pps-1 panels, "
+NOT_PROVED = ["CAVdp panel count for NON-standard time steps: for dt = fl(1/pps), pps in the 22 standard rates, the floating np.arange has exactly pps elements (first 600 windows) and pps-1 panels are integrated (first 2..10 windows fully evaluated) - proved on an exact binary64 model validated bit for bit against NumPy (Props/C09CavDpPanels); other dt (e.g. 1/49: pps panels; 1/93: int(1/dt) = 92) and windows beyond 600 s: the oracle accepts either count",
               "the oracle accepts either (the property allows one trapezoid panel per window)",
               "IEEE rounding of the sums (measured)"]
 
@@ -23,7 +23,7 @@ SERIES = [  # (name, impl function, model handler)
 K_ARIAS = math.pi / (2 * 9.81)
 
 
-PROP_MODULES = ['C09', 'C09Gen', 'C09Sem', 'C09GenCav']
+PROP_MODULES = ['C09', 'C09Gen', 'C09Sem', 'C09GenCav', 'C09GenObject', 'C09CavDpPanels']
 
 def ftrapz(y, dx):
     return sum((y[i] + y[i + 1]) for i in range(len(y) - 1)) * dx / 2
@@ -712,4 +712,16 @@ _run_main_h = run
 def run(ctx):
     _run_main_h(ctx)
     extras_hist(ctx)
+    ctx.flush()
+
+
+# ---- round-7 deliveries (lw_small / tw_single3): further correspondences of models with new theorems -------------------------
+import _lw_small as _LW  # noqa: E402
+from _single3_corr import corr_single3  # noqa: E402
+_run_main_r7 = run
+
+
+def run(ctx):
+    _run_main_r7(ctx)
+    _LW.corr_cavdp_float(ctx)
     ctx.flush()
